@@ -371,3 +371,5 @@ _also3('C16', 'a rejected step of the atlas traversal ends it as a failure on ev
 _also3('C17', 'the snap block of findBetterGoal is interpreted over the four outcomes of its two tests.')
 _also3('C19', 'worker threads never clear the shared problem definition.')
 _also3('C20', 'variate generators of RNG helper classes share the RNG\'s engine by pointer or reference.')
+_also3('C04', 'an objective whose straight-line motion cost is not symmetric under exchange of its two states overrides isSymmetric() to return '
+              'false (4 objectives decided, 3 listed).')
